@@ -1,5 +1,6 @@
 //! Verification machinery (engines + one module per property).
 pub mod common;
+mod c01;
 mod c02;
 mod c03;
 mod c05;
@@ -15,3 +16,4 @@ mod c18;
 pub mod xsched;
 pub mod world;
 pub mod io;
+pub mod relay;
